@@ -12,9 +12,21 @@ Definition nid := N.         (* identity of a native function supplied by the em
 
 Record package := { p_name : name; p_decls : list (name * nid) }.
 
+(* what an importer answers for a path: native.Importer.Import returns a
+   package, (nil, nil) when it does not have the package, or an error *)
+Inductive ianswer := APkg (pkg : package) | ANone | AErr.
+
+(* native.CombinedImporter.Import: the members are asked in order and the
+   first answer that is not (nil, nil) is returned, be it a package or an error *)
+Fixpoint combined (ms : list (path -> ianswer)) (p : path) : ianswer :=
+  match ms with
+  | [] => ANone
+  | m :: r => match m p with ANone => combined r p | a => a end
+  end.
+
 (* what the embedder configures *)
 Record config := {
-  c_importer : path -> option package;     (* BuildOptions.Packages: the importer function *)
+  c_importer : path -> ianswer;            (* BuildOptions.Packages: the importer function (a nil importer answers ANone) *)
   c_globals : list (name * nid);           (* BuildOptions.Globals *)
   c_allow_go : bool;                       (* BuildOptions.AllowGoStmt *)
   c_template : bool                        (* BuildTemplate (true) or Build (false) *)
@@ -45,6 +57,7 @@ Inductive binding :=
 
 Inductive error :=
 | ECannotFindPackage (p : path)
+| EImporterError (p : path)       (* the importer returned an error for p: the build fails with it *)
 | EUndefined
 | EGoNotAvailable
 | ENotCallable
@@ -80,8 +93,9 @@ Fixpoint check_imports (cfg : config) (imps : list (import_form * path)) (file :
   | [] => inl (file, asked)
   | (form, p) :: r =>
     match c_importer cfg p with
-    | None => inr (ECannotFindPackage p)
-    | Some pkg =>
+    | ANone => inr (ECannotFindPackage p)
+    | AErr => inr (EImporterError p)
+    | APkg pkg =>
       let asked' := asked ++ [p] in
       match form with
       | IBlank => check_imports cfg r file asked'
